@@ -62,6 +62,7 @@ type stmt struct {
 	SQL      string
 	Tables   []string // tables it reads (for the overlap measure)
 	PlanOnly bool     // EXPLAIN / DESCRIBE of a plan: only succeeded/failed is compared (plan shapes are not part of the property)
+	Volatile bool     // reads the shared registries (process list, thread counters): the rows legitimately depend on what the other sessions do; only succeeded/failed is compared
 	Class    string
 }
 
@@ -183,6 +184,11 @@ func genStmt(rt *rapid.T) stmt {
 				"SELECT @@collation_connection, @@lower_case_table_names", "SELECT database(), version() IS NOT NULL",
 			}).Draw(rt, "sysvar")
 		}},
+		{"registry", nil, func() string {
+			return rapid.SampledFrom([]string{
+				"SHOW PROCESSLIST", "SHOW FULL PROCESSLIST", "SHOW STATUS LIKE 'Threads%'", "SHOW GLOBAL STATUS LIKE 'Questions'", "SHOW STATUS LIKE 'Com_select'",
+			}).Draw(rt, "registry")
+		}},
 		{"error", nil, func() string {
 			return rapid.SampledFrom([]string{
 				"SELECT * FROM nosuch", "SELECT nocol FROM t1", "SELECT id FROM t1 WHERE", "SELECT a, count(*) FROM t1 GROUP BY nocol",
@@ -199,9 +205,9 @@ func genStmt(rt *rapid.T) stmt {
 		}
 		t = tpls[0]
 	}
-	s := stmt{SQL: t.mk(), Tables: t.tables, Class: t.class}
+	s := stmt{SQL: t.mk(), Tables: t.tables, Class: t.class, Volatile: t.class == "registry"}
 	// one in eight: look at the plan of the statement instead of running it
-	if t.class != "show" && t.class != "error" && t.class != "call" && t.class != "sysvars" && ri(rt, 0, 7, "explain") == 0 {
+	if t.class != "show" && t.class != "error" && t.class != "call" && t.class != "sysvars" && t.class != "registry" && ri(rt, 0, 7, "explain") == 0 {
 		s.SQL, s.PlanOnly, s.Class = "EXPLAIN "+s.SQL, true, "explain"
 	}
 	return s
